@@ -43,6 +43,12 @@ impl<S: Storage> InsertExecutor<S> {
         #[for_await]
         for chunk in child {
             let chunk = Evaluator::new(&expr).eval_list(&chunk?)?;
+            // enforce NOT NULL (and PRIMARY KEY) columns
+            for (col, array) in columns.iter().zip(chunk.arrays()) {
+                if (!col.is_nullable() || col.is_primary()) && array.count() != array.len() {
+                    Err(ExecutorError::not_nullable())?;
+                }
+            }
             cnt += chunk.cardinality();
             txn.append(chunk).await?;
         }
